@@ -12,6 +12,7 @@
 #pragma once
 #include "../rt/xvrt.hpp"
 
+#include <signal.h>
 #include <sys/mman.h>
 #include <sys/wait.h>
 #include <unistd.h>
@@ -82,6 +83,10 @@ inline std::string case_text(const Case& c, const std::vector<int>* sched = null
 // apply returns false if the recorded result is not allowed in that state. Pending ops (done=false)
 // may be linearized (with any result: apply is called with res == "?") or dropped.
 // ------------------------------------------------------------------------------------------------
+// optional second successor of an operation (nondeterministic specifications): Spec::apply_alt
+template <class Spec> auto lin_alt(const Spec& sp, typename Spec::State& s, const OpRec& o, int) -> decltype(sp.apply_alt(s, o)) { return sp.apply_alt(s, o); }
+template <class Spec> bool lin_alt(const Spec&, typename Spec::State&, const OpRec&, long) { return false; }
+
 template <class Spec>
 struct LinCheck {
   const Spec& spec; const std::vector<OpRec>& h; std::unordered_set<std::string> seen; long nodes = 0; long limit;
@@ -102,6 +107,8 @@ struct LinCheck {
       if (minret >= 0 && h[i].inv > minret) continue;
       typename Spec::State s2 = st;
       if (spec.apply(s2, h[i])) { if (dfs(done | (1ull << i), s2)) return true; }
+      typename Spec::State s3 = st;
+      if (lin_alt(spec, s3, h[i], 0)) { if (dfs(done | (1ull << i), s3)) return true; }
     }
     return false;
   }
@@ -253,6 +260,13 @@ inline int count_preemptions(const std::vector<int>& s, const std::vector<uint32
   int p = 0; for (size_t i = 1; i < s.size(); i++) if (s[i] != s[i - 1] && (en[i] & (1u << s[i - 1]))) p++; return p;
 }
 
+inline void crash_handler(int sig) {
+  // run mode: report a crash as a verdict instead of dying silently
+  char buf[64]; int n = snprintf(buf, sizeof buf, "RESULT 6 crash: signal %d\n", sig);
+  if (write(1, buf, (size_t)n)) {}
+  _exit(16);
+}
+
 inline int main_driver(int argc, char** argv, std::function<Adapter*()> mk) {
   if (argc < 3) { fprintf(stderr, "usage: %s run|explore <case> [options]\n", argv[0]); return 2; }
   std::string cmd = argv[1];
@@ -270,8 +284,12 @@ inline int main_driver(int argc, char** argv, std::function<Adapter*()> mk) {
     else if (a == "--maxfound") o.maxfound = atoi(nxt().c_str());
     else if (a == "--quiet") o.quiet = true;
   }
+  if (c.geti("aba", 0)) o.aba = true;
+  if (c.geti("race", 0)) o.race = true;
+  if (c.geti("weak", 0)) { o.weak = true; o.W = (int)c.geti("weak", 16); }
   int nthreads = (int)c.prog.size();
   if (cmd == "run") {
+    signal(SIGSEGV, crash_handler); signal(SIGBUS, crash_handler); signal(SIGABRT, crash_handler); signal(SIGFPE, crash_handler);
     Adapter* A = mk();
     xv::Scheduler* s;
     if (!c.prefix.empty()) { auto* p = new xv::PrefixSched(); p->segs = c.prefix; s = p; }
